@@ -280,6 +280,8 @@ func checkC08(ctx *Ctx, r *Report) {
 	c08WholesaleLeafOnly(ctx, r)
 	c09OperatorTable(ctx, r)
 	c09BoundAgreement(ctx, r)
+	c09RatExactness(ctx, r)
+	c08RuneLengths(ctx, r, ts)
 	inProgressRestored(ctx, r, []string{"internal/jennies/golang/validation.go"}, 1)
 	c01SiblingReplacements(ctx, r)
 	c08CueConstraintSiblings(ctx, r)
@@ -472,6 +474,29 @@ func c08ResolvesToConstraints(ctx *Ctx, r *Report) {
 	})
 	r.Check(refCaseRecurses, "kinds/constraints-predicate", "resolvesToConstraints reference case", body.Pos(), "references to arrays, maps and scalars are looked through",
 		"for a reference the predicate does not look through to arrays, maps and scalars: constraints declared on (the elements of) an alias are pruned from Validate()")
+	// … and not answer "yes" for a container without looking at its elements: the template then emits a loop whose body is
+	// empty — `for i1 := range x { }` does not compile (i1 declared and not used) while goimports accepts it
+	overApprox := ""
+	ast.Inspect(body, func(n ast.Node) bool {
+		is, ok := n.(*ast.IfStmt)
+		if !ok {
+			return true
+		}
+		cs := exprString(is.Cond)
+		if !(strings.Contains(cs, ".IsArray()") || strings.Contains(cs, ".IsMap()")) || strings.Contains(cs, ".IsStruct()") || strings.Contains(cs, ".IsRef()") {
+			return true
+		}
+		for _, st := range is.Body.List {
+			if rs, ok := st.(*ast.ReturnStmt); ok && len(rs.Results) == 1 {
+				if tv, ok := info.Types[rs.Results[0]]; ok && tv.Value != nil && tv.Value.String() == "true" && overApprox == "" {
+					overApprox = cs
+				}
+			}
+		}
+		return true
+	})
+	r.Check(overApprox == "", "kinds/constraints-predicate", "resolvesToConstraints container cases recurse", body.Pos(), "arrays and maps are answered from their elements",
+		"under `"+overApprox+"` the predicate answers true without looking at the elements: for a list / map whose elements hold no constraint the validation template emits an empty loop — `for i1 := range resource.Tags { }` — which does not compile (declared and not used) although the run, goimports included, succeeds")
 	// one case per kind: `if typeDef.Is<Kind>() { … }`; container kinds must recurse
 	cases := map[string]string{}
 	ast.Inspect(body, func(n ast.Node) bool {
@@ -1074,4 +1099,44 @@ func c08CueConstraintSiblings(ctx *Ctx, r *Report) {
 	}
 	r.Count("constraint extractors of the CUE front-end", n)
 	r.Floor("constraint extractors of the CUE front-end", 2)
+}
+
+// c08RuneLengths: string length bounds count characters (JSON Schema minLength / maxLength, CUE MinRunes / MaxRunes): both
+// operators must be emitted on `len([]rune(x))`. A byte length rejects multi-byte strings that are within the bound.
+func c08RuneLengths(ctx *Ctx, r *Report, ts *tmplSet) {
+	n := 0
+	for _, name := range ts.names() {
+		if !strings.Contains(ts.file[name], "struct_validation_method") {
+			continue
+		}
+		walkTmpl(ts.trees[name].Root, func(m parse.Node) bool {
+			in, ok := m.(*parse.IfNode)
+			if !ok {
+				return true
+			}
+			cond := in.Pipe.String()
+			op := ""
+			for _, o := range []string{"minLength", "maxLength"} {
+				if strings.Contains(cond, `"`+o+`"`) && strings.Contains(cond, "eq") {
+					op = o
+				}
+			}
+			if op == "" {
+				return true
+			}
+			n++
+			body := ""
+			walkTmpl(in.List, func(q parse.Node) bool {
+				if an, ok := q.(*parse.ActionNode); ok {
+					body += an.String() + "\n"
+				}
+				return true
+			})
+			r.Check(strings.Contains(body, "[]rune("), "skeleton/length-in-runes", "go validation template "+op, token.NoPos, "the operand is len([]rune(x))",
+				ts.file[name]+": the "+op+" check is not emitted on the number of runes: a byte length rejects strings with multi-byte characters that are within the bound (\"café\" with maxLength 4) or accepts too-short ones")
+			return true
+		})
+	}
+	r.Count("string length operators in the Go validation template", n)
+	r.Floor("string length operators in the Go validation template", 2)
 }
